@@ -4,14 +4,144 @@ package main
 // VERIF_SEED, so a case is reproduced by (seed, suite, index).
 
 import (
+	"encoding/json"
 	"math/rand"
+	"os"
 )
 
 type Gen struct {
 	r *rand.Rand
 }
 
+// dictionary harvested from the literals of the current source by tools/extract (auto-dictionary): magic
+// numbers and strings the code compares against become likely generator outputs
+var dictInts []uint64
+var dictStrs []string
+
+// literals of the current source that the baseline dictionary (pinned tree, committed) does not contain:
+// whatever a change of the code newly compares against is drawn with high probability
+var newInts []uint64
+var newStrs []string
+
+type dictFile struct {
+	Ints    []uint64 `json:"ints"`
+	Strings []string `json:"strings"`
+}
+
+func loadDict(path, basePath string) {
+	var d, b dictFile
+	if data, err := os.ReadFile(path); err != nil || json.Unmarshal(data, &d) != nil {
+		return
+	}
+	dictInts, dictStrs = d.Ints, d.Strings
+	if data, err := os.ReadFile(basePath); err != nil || json.Unmarshal(data, &b) != nil {
+		return
+	}
+	bi, bs := map[uint64]bool{}, map[string]bool{}
+	for _, v := range b.Ints {
+		bi[v] = true
+	}
+	for _, v := range b.Strings {
+		bs[v] = true
+	}
+	for _, v := range d.Ints {
+		if !bi[v] {
+			newInts = append(newInts, v, v-1, v+1) // and the neighbours (off-by-one of a new limit)
+		}
+	}
+	for _, v := range d.Strings {
+		if !bs[v] {
+			newStrs = append(newStrs, v)
+		}
+	}
+}
+
+// a dictionary integer reduced to `bits` bits; ok=false when there is no dictionary
+func (g *Gen) dictInt(bits uint) (uint64, bool) {
+	if len(dictInts) == 0 {
+		return 0, false
+	}
+	v := dictInts[g.r.Intn(len(dictInts))]
+	if len(newInts) > 0 && g.chance(0.6) {
+		v = newInts[g.r.Intn(len(newInts))]
+	}
+	if bits < 64 {
+		v &= (1 << bits) - 1
+	}
+	return v, true
+}
+
+// an integer whose octets are dictionary octets (magic values in the middle of a wider field)
+func (g *Gen) dictComposite(octets int) (uint64, bool) {
+	if len(dictInts) == 0 {
+		return 0, false
+	}
+	var v uint64
+	for i := 0; i < octets; i++ {
+		b := dictInts[g.r.Intn(len(dictInts))] & 0xff
+		if g.chance(0.5) {
+			b = 0
+		}
+		v = v<<8 | b
+	}
+	return v, true
+}
+
 func NewGen(seed int64) *Gen { return &Gen{r: rand.New(rand.NewSource(seed))} }
+
+// wire pool (splicing): encodings the harness has produced or fed to the library so far; octet strings and
+// integer fields are now and then cut out of them, so that field values which look like wire structure
+// (an attribute header inside an attribute value, header octets inside an SPI or Message ID) are generated
+var wirePool [][]byte
+var wirePoolN int
+
+func poolAdd(b []byte) {
+	if len(b) < 4 || len(b) > 8192 {
+		return
+	}
+	c := append([]byte{}, b...)
+	if len(wirePool) < 256 {
+		wirePool = append(wirePool, c)
+	} else {
+		wirePool[wirePoolN%256] = c
+	}
+	wirePoolN++
+}
+
+func poolAddHex(s string) {
+	if len(s) > 1 && s[0] == 'x' {
+		poolAdd(unhx(s))
+	}
+}
+
+// n octets cut out of a pooled encoding at a random offset (wrapping around)
+func (g *Gen) poolFrag(n int) ([]byte, bool) {
+	if len(wirePool) == 0 || n == 0 {
+		return nil, false
+	}
+	e := wirePool[g.r.Intn(len(wirePool))]
+	off := g.r.Intn(len(e))
+	if g.chance(0.5) {
+		off = off &^ 3
+	}
+	out := make([]byte, n)
+	for i := range out {
+		out[i] = e[(off+i)%len(e)]
+	}
+	return out, true
+}
+
+func (g *Gen) poolInt(octets int) (uint64, bool) {
+	f, ok := g.poolFrag(octets)
+	if !ok {
+		return 0, false
+	}
+	var v uint64
+	for _, b := range f {
+		v = v<<8 | uint64(b)
+	}
+	return v, true
+}
 
 func (g *Gen) intn(n int) int        { return g.r.Intn(n) }
 func (g *Gen) chance(p float64) bool { return g.r.Float64() < p }
@@ -21,6 +151,11 @@ func (g *Gen) pick(xs ...int) int { return xs[g.r.Intn(len(xs))] }
 // size biased to small values and to the boundaries the decoders are sensitive to
 func (g *Gen) size(max int) int {
 	var n int
+	if len(dictInts) > 0 && g.r.Intn(6) == 0 { // lengths the source mentions (and, preferably, newly mentions)
+		if v, ok := g.dictInt(17); ok && int(v) <= max {
+			return int(v)
+		}
+	}
 	switch g.r.Intn(20) {
 	case 0:
 		n = 0
@@ -50,6 +185,30 @@ func (g *Gen) size(max int) int {
 
 func (g *Gen) bytes(n int) []byte {
 	b := make([]byte, n)
+	if len(dictStrs) > 0 && n > 0 && g.r.Intn(12) == 0 { // dictionary string as prefix (and sometimes suffix)
+		g.r.Read(b)
+		pre := dictStrs[g.r.Intn(len(dictStrs))]
+		if len(newStrs) > 0 && g.chance(0.7) {
+			pre = newStrs[g.r.Intn(len(newStrs))]
+		}
+		copy(b, pre)
+		if g.chance(0.3) {
+			sfx := dictStrs[g.r.Intn(len(dictStrs))]
+			if len(sfx) <= n {
+				copy(b[n-len(sfx):], sfx)
+			}
+		}
+		return b
+	}
+	if n >= 4 && g.r.Intn(10) == 0 { // a piece of an earlier encoding somewhere inside
+		if f, ok := g.poolFrag(4 + g.r.Intn(n-3)); ok {
+			if g.chance(0.5) {
+				g.r.Read(b)
+			}
+			copy(b[g.r.Intn(n-len(f)+1):], f)
+			return b
+		}
+	}
 	switch g.r.Intn(8) {
 	case 0:
 		// all zero
@@ -72,6 +231,11 @@ func (g *Gen) bytesMin(min, max int) []byte {
 }
 
 func (g *Gen) u8() uint64 {
+	if g.r.Intn(4) == 0 {
+		if v, ok := g.dictInt(8); ok {
+			return v
+		}
+	}
 	switch g.r.Intn(6) {
 	case 0:
 		return uint64(g.pick(0, 1, 2, 3, 127, 128, 254, 255))
@@ -81,6 +245,11 @@ func (g *Gen) u8() uint64 {
 }
 
 func (g *Gen) u16() uint64 {
+	if g.r.Intn(4) == 0 {
+		if v, ok := g.dictInt(16); ok {
+			return v
+		}
+	}
 	switch g.r.Intn(6) {
 	case 0:
 		return uint64(g.pick(0, 1, 14, 127, 128, 142, 255, 256, 270, 300, 32767, 32768, 0x8001, 65535))
@@ -101,6 +270,20 @@ func (g *Gen) u15() uint64 {
 }
 
 func (g *Gen) u32() uint64 {
+	switch g.r.Intn(8) {
+	case 0:
+		if v, ok := g.dictInt(32); ok {
+			return v
+		}
+	case 1:
+		if v, ok := g.dictComposite(4); ok {
+			return v
+		}
+	case 2:
+		if v, ok := g.poolInt(4); ok {
+			return v
+		}
+	}
 	switch g.r.Intn(6) {
 	case 0:
 		return uint64(g.pick(0, 1, 255, 256, 65535, 65536, 0x7fffffff, 0x80000000, 0xffffffff))
@@ -110,6 +293,23 @@ func (g *Gen) u32() uint64 {
 }
 
 func (g *Gen) u64() uint64 {
+	switch g.r.Intn(8) {
+	case 0:
+		if v, ok := g.dictInt(64); ok {
+			return v
+		}
+	case 1:
+		if v, ok := g.dictComposite(8); ok {
+			return v
+		}
+	case 2:
+		if v, ok := g.poolInt(8); ok {
+			if g.chance(0.5) {
+				v >>= 32 // the low half only (a short SPI)
+			}
+			return v
+		}
+	}
 	switch g.r.Intn(6) {
 	case 0:
 		return []uint64{0, 1, 0xff, 0xffffffff, 0x100000000, 0x7fffffffffffffff, 0x8000000000000000, 0xffffffffffffffff}[g.r.Intn(8)]
@@ -206,6 +406,9 @@ func (g *Gen) eapTypeData() *Sx {
 		vt := g.u32()
 		if g.chance(0.5) {
 			vid, vt = 10415, 3
+			if g.chance(0.6) {
+				return L(A("EXP"), N(vid), N(vt), X(g.eap5gData()))
+			}
 		}
 		return L(A("EXP"), N(vid), N(vt), X(g.bytes(g.size(3000))))
 	default:
@@ -213,6 +416,44 @@ func (g *Gen) eapTypeData() *Sx {
 		s.List = append(s.List, g.akaSets()...)
 		return s
 	}
+}
+
+// vendor data shaped like the EAP-5G messages of TS 24.502 9.3.2 (what the library's users put there):
+// message id, spare, [AN-parameters length, AN parameters, NAS-PDU length, NAS-PDU], and now and then
+// octets behind it, a length that does not fit, or an extension
+func (g *Gen) eap5gData() []byte {
+	id := byte(g.pick(1, 2, 2, 2, 3, 4))
+	out := []byte{id, byte(g.pick(0, 0, 0, g.r.Intn(256)))}
+	if id == 1 || id == 3 || id == 4 {
+		if g.chance(0.7) {
+			return out
+		}
+	}
+	an := g.bytes(g.size(64))
+	if g.chance(0.5) { // AN parameters as type/length/value items
+		an = nil
+		for i := g.r.Intn(4); i > 0; i-- {
+			v := g.bytes(g.size(20))
+			an = append(an, byte(g.pick(1, 2, 3, 4, 5, 6)), byte(len(v)))
+			an = append(an, v...)
+		}
+	}
+	out = append(out, byte(len(an)>>8), byte(len(an)))
+	out = append(out, an...)
+	nas := g.bytes(g.size(300))
+	nl := len(nas)
+	if g.chance(0.1) {
+		nl = g.pick(0, nl+1, nl-1, 65535)
+		if nl < 0 {
+			nl = 0
+		}
+	}
+	out = append(out, byte(nl>>8), byte(nl))
+	out = append(out, nas...)
+	if g.chance(0.3) {
+		out = append(out, g.bytes(1+g.r.Intn(8))...)
+	}
+	return out
 }
 
 func (g *Gen) eap() *Sx {
@@ -233,11 +474,28 @@ func (g *Gen) payload(kind string, big bool) *Sx {
 	case "SA":
 		ps := L()
 		n := g.pick(0, 1, 1, 1, 2, 3, 4)
+		if g.chance(0.01) { // counts past the 8-bit range: there is no proposal count on the wire
+			n = g.pick(255, 256, 257, 300)
+			for i := 0; i < n; i++ {
+				ps.List = append(ps.List, L(A("P"), N(g.u8()), N(g.u8()), X(nil), L(g.transform(1)), L(), L(), L(), L()))
+			}
+			return L(A("SA"), ps)
+		}
 		for i := 0; i < n; i++ {
 			ps.List = append(ps.List, g.proposal())
 		}
 		return L(A("SA"), ps)
 	case "KE":
+		if g.chance(0.4) { // a group the registry knows with a value of about the modulus size
+			grp := g.pick(2, 2, 2, 14, 14, 14, 1, 5, 15, 16, 17, 18, 19, 20, 21, 31)
+			ml := map[int]int{1: 96, 2: 128, 5: 192, 14: 256, 15: 384, 16: 512, 17: 768, 18: 1024, 19: 64, 20: 96, 21: 132, 31: 32}[grp]
+			n := ml + g.pick(0, 0, 0, -1, -1, 1, -2, 2)
+			v := g.bytes(n)
+			if g.chance(0.3) {
+				v[0] = 0
+			}
+			return L(A("KE"), N(uint64(grp)), X(v))
+		}
 		return L(A("KE"), N(g.u16()), X(g.bytesMin(1, max)))
 	case "IDi", "IDr":
 		return L(A(kind), N(g.u8()), X(g.bytesMin(1, max)))
@@ -282,6 +540,22 @@ func (g *Gen) header() *Sx {
 	if g.chance(0.6) {
 		maj, min = 2, 0
 	}
+	if g.chance(0.06) {
+		// SPIs and Message ID that read like a header displaced by 4 or 8 octets (what a datagram behind an RFC 3948
+		// Non-ESP marker, or a header read from the wrong offset, looks like)
+		h := make([]byte, 28)
+		g.r.Read(h[:16])
+		h[16], h[17], h[18], h[19] = byte(g.pick(33, 41, 46)), 0x20, byte(g.pick(34, 35, 36, 37)), byte(g.pick(0, 8, 32, 40))
+		h[23] = byte(g.r.Intn(4))
+		sh := append(make([]byte, g.pick(4, 8)), h...)
+		be := func(b []byte) (v uint64) {
+			for _, x := range b {
+				v = v<<8 | uint64(x)
+			}
+			return
+		}
+		return L(A("H"), N(be(sh[0:8])), N(be(sh[8:16])), N(2), N(0), N(uint64(g.pick(34, 35, 36, 37))), N(uint64(g.pick(0, 8, 32, 40))), N(be(sh[20:24])))
+	}
 	return L(A("H"), N(g.u64()), N(g.u64()), N(maj), N(min), N(g.u8()), N(g.u8()), N(g.u32()))
 }
 
@@ -300,6 +574,50 @@ func (g *Gen) payloadList() *Sx {
 func (g *Gen) msg() *Sx {
 	return L(A("msg"), g.header(), g.payloadList())
 }
+
+// a message just OUTSIDE the encodable domain: one payload carries something the encoder has to refuse (or, where
+// it does not, has to treat exactly as the model does): empty mandatory data, address length not matching the
+// selector type, empty TLV value, SPI longer than its length octet, version nibble out of range
+func (g *Gen) msgOutside() *Sx {
+	m := g.msg()
+	ps := m.List[2]
+	var p *Sx
+	switch g.r.Intn(12) {
+	case 0:
+		p = L(A("KE"), N(g.u16()), X(nil))
+	case 1:
+		p = L(A(g.pickS("IDi", "IDr", "CERT", "CERTREQ", "AUTH")), N(g.u8()), X(nil))
+	case 2:
+		n := g.pick(0, 1, 3, 5, 15, 16, 17)
+		p = L(A(g.pickS("TSi", "TSr")), L(L(A("TS"), N(7), N(g.u8()), N(g.u16()), N(g.u16()), X(g.bytes(n)), X(g.bytes(g.pick(4, n))))))
+	case 3:
+		n := g.pick(0, 4, 15, 17, 32)
+		p = L(A(g.pickS("TSi", "TSr")), L(L(A("TS"), N(8), N(g.u8()), N(g.u16()), N(g.u16()), X(g.bytes(g.pick(16, n))), X(g.bytes(n)))))
+	case 4:
+		p = L(A(g.pickS("TSi", "TSr")), L(L(A("TS"), N(uint64(g.pick(0, 6, 9, 255))), N(g.u8()), N(g.u16()), N(g.u16()), X(g.bytes(4)), X(g.bytes(4)))))
+	case 5: // TLV attribute without a value
+		t := L(A("T"), N(1), N(g.u16()), A("1"), N(0), N(g.u15()), N(0), X(nil))
+		p = L(A("SA"), L(L(A("P"), N(1), N(1), X(nil), L(t), L(), L(), L(), L())))
+	case 6: // SPI longer than the SPI-size octet can say
+		p = L(A("SA"), L(L(A("P"), N(1), N(1), X(g.bytes(g.pick(256, 257, 300))), L(g.transform(1)), L(), L(), L(), L())))
+	case 7:
+		p = L(A("N"), N(g.u8()), N(g.u16()), X(g.bytes(g.pick(256, 257, 300))), X(g.bytes(g.size(40))))
+	case 8:
+		p = L(A("CP"), N(g.u8()), L())
+	case 9:
+		p = L(A(g.pickS("TSi", "TSr")), L())
+	case 10:
+		p = L(A("SA"), L(L(A("P"), N(1), N(1), X(nil), L(), L(), L(), L(), L())))
+	default:
+		m.List[1].List[3+g.r.Intn(2)] = N(uint64(g.pick(16, 17, 255)))
+		return m
+	}
+	i := g.r.Intn(len(ps.List) + 1)
+	ps.List = append(ps.List[:i], append([]*Sx{p}, ps.List[i:]...)...)
+	return m
+}
+
+func (g *Gen) pickS(xs ...string) string { return xs[g.r.Intn(len(xs))] }
 
 // ---------------------------------------------------------------------------
 // malformed inputs: mutations of valid encodings
